@@ -2,9 +2,11 @@
 (***************************************************************************)
 (* Unit commitment WITH start and shutdown ramp profiles (growth of C06).   *)
 (*                                                                         *)
-(* Configuration c (a plant that is off when the horizon begins):          *)
+(* Configuration c (a plant that is off when the horizon begins, or has    *)
+(* been running for run0 steps -- possibly still inside its start profile): *)
 (*   T, d, lo, hi (capacity, volume per step when fully on), price[],      *)
-(*   minrun, mindown (steps), off0 (steps already off), startcost,         *)
+(*   minrun, mindown (steps), off0 (steps already off), run0 (steps        *)
+(*   already running; 0: off), startcost,                                  *)
 (*   sr : sequence of <<lo, hi>> -- bounds of the output in the j-th step   *)
 (*        after starting (sr[1]: the start step itself),                   *)
 (*   dr : sequence of <<lo, hi>> -- bounds in the j-th step BEFORE turning  *)
@@ -69,8 +71,15 @@ AllBounds(c) == { c.lo, c.hi } \cup { c.sr[j][k] : j \in 1..Rs(c), k \in 1..2 } 
 Moves(w) == { [on |-> o, start |-> sf, sdn |-> sd, p |-> p] : o \in BOOLEAN, sf \in BOOLEAN, sd \in BOOLEAN,
               p \in { z \in 0..(cfg.hi + w) : z = 0 \/ z % cfg.q = 0 \/ \E y \in AllBounds(cfg) : z \in {y - w, y, y + w} } }
 
+InitDu(c) == IF c.run0 = 0 THEN {0}
+             ELSE {0} \cup { k \in 1..(Rd(c) - 1) : c.run0 >= c.minrun + Rs(c) + (Rd(c) - k) }
+                      \cup (IF Rd(c) > 0 /\ c.run0 >= c.minrun + Rs(c) + Rd(c) THEN {-1} ELSE {})
 Init == /\ cfg \in Configs /\ t = 1 /\ hist = <<>> /\ val = 0 /\ fault = ""
-        /\ st = [on |-> FALSE, dur |-> IF cfg.off0 > 0 THEN cfg.off0 ELSE BIG, ss |-> 0, du |-> 0]
+        \* a plant declared running may already be anywhere in its shutdown profile (the profile is cut at the border of the
+        \* horizon: its steps before the horizon are not constrained), as far as its declared run time allows
+        /\ \E du0 \in InitDu(cfg) :
+             st = IF cfg.run0 > 0 THEN [on |-> TRUE, dur |-> cfg.run0, ss |-> cfg.run0, du |-> du0]
+                  ELSE [on |-> FALSE, dur |-> IF cfg.off0 > 0 THEN cfg.off0 ELSE BIG, ss |-> 0, du |-> 0]
 Step == /\ t <= cfg.T /\ fault = ""
         /\ \E w \in (IF Relax = {} THEN {0} ELSE {0, 1}) : \E m \in Moves(w) :
              LET r == StepR(cfg, t, st, m) IN
@@ -83,13 +92,15 @@ Complete == t = cfg.T + 1 /\ fault = ""
 
 \* ---- invariants on the history (independent of the counters)
 OnRunEndingAt(e) == CHOOSE k \in 0..e : (\A j \in (k + 1)..e : hist[j].on) /\ (k = 0 \/ ~hist[k].on)     \* run = steps k+1..e
+\* steps of that run that lie before the horizon (a plant declared running)
+Before(k) == IF k = 0 THEN cfg.run0 ELSE 0
 \* every completed on-run is long enough for start profile + minimum runtime + shutdown profile
 RunLongEnough == (fault = "") => \A e \in 1..(Len(hist) - 1) :
-                    ((hist[e].on /\ ~hist[e + 1].on) => e - OnRunEndingAt(e) >= cfg.minrun + Rs(cfg) + Rd(cfg))
+                    ((hist[e].on /\ ~hist[e + 1].on) => e - OnRunEndingAt(e) + Before(OnRunEndingAt(e)) >= cfg.minrun + Rs(cfg) + Rd(cfg))
 \* the last Rd steps before a switch-off carry the shutdown profile, the first Rs steps after a start the start profile
 ProfilesFollowed == (fault = "") => \A e \in 1..Len(hist) : hist[e].on =>
                     LET k == OnRunEndingAt(e) IN
-                    /\ (e - k <= Rs(cfg)) => (hist[e].p >= cfg.sr[e - k][1] /\ hist[e].p <= cfg.sr[e - k][2])
+                    /\ (e - k + Before(k) <= Rs(cfg)) => (hist[e].p >= cfg.sr[e - k + Before(k)][1] /\ hist[e].p <= cfg.sr[e - k + Before(k)][2])
                     /\ \A j \in 1..Rd(cfg) : (e + j <= Len(hist) /\ (\A i \in 0..(j - 1) : hist[e + i].on) /\ ~hist[e + j].on)
                                                => (hist[e].p >= cfg.dr[j][1] /\ hist[e].p <= cfg.dr[j][2])
 OffZero == (fault = "") => \A e \in 1..Len(hist) : (~hist[e].on => hist[e].p = 0)
